@@ -206,12 +206,93 @@ func checkC03(c *Ctx) *core.Result {
 	// the fingerprint of every attack that uses it as separator
 	if env := newE3Env(c, r); len(r.Violations) == 0 {
 		sr := &sqlRoots{env: env}
+		comment, _ := p.ConstInt("sqliTokenTypeComment")
+		dashLexer := ""
+		if f := disp.Table['-']; f != nil {
+			dashLexer = "lexer:" + f.Name()
+		}
+		var white absint.Mask
+		for _, ch := range []int{9, 10, 11, 12, 13, 32} { // the SQL white-space bytes of the statement
+			white[ch>>6] |= 1 << (uint(ch) & 63)
+		}
 		sr.runAll(func(name string, hooks *absint.Hooks) {
 			c16Hooks(sr, name, hooks)
 			ohitHooks(sr, name, hooks)
+			if name != dashLexer {
+				return
+			}
+			// R-tail: `--` at the end of the input and `--` + white space start a comment in
+			// every mode — a return of the dash lexer that emits something else must be
+			// impossible in those situations
+			prev := hooks.OnReturn
+			hooks.OnReturn = func(e *absint.Engine, st *absint.State, fr *absint.Frame, ret *ssa.Return, val absint.AVal) {
+				if prev != nil {
+					prev(e, st, fr, ret, val)
+				}
+				rc := sr.getCtx(name)
+				if fr.Depth() != 0 || rc == nil {
+					return
+				}
+				cls, ok := e.CellOf(st, ghostTok, "class")
+				isComment := false
+				if k, isC := absint.ConstOf(cls); ok && isC && k == comment {
+					isComment = true
+				}
+				second := absint.ByteV{Root: rc.In.Root, Idx: rc.In.Lo.Add(rc.Pos0).AddK(1)}
+				third := absint.ByteV{Root: rc.In.Root, Idx: rc.In.Lo.Add(rc.Pos0).AddK(2)}
+				var dash absint.Mask
+				dash['-'>>6] |= 1 << (uint('-') & 63)
+				length := absint.StrLenOf(rc.In)
+				possible := func(scenario func(s2 *absint.State) bool) bool {
+					s2 := st.Clone()
+					if !scenario(s2) {
+						return false
+					}
+					return e.Feasible(s2)
+				}
+				twoDashes := func(s2 *absint.State) bool {
+					e.AssumeLE(s2, rc.Pos0.AddK(2), length)
+					m := e.MaskOf(s2, second)
+					if !m.Has('-') {
+						return false
+					}
+					e.SetMask(s2, second, dash)
+					return true
+				}
+				atEOF := possible(func(s2 *absint.State) bool {
+					if !twoDashes(s2) {
+						return false
+					}
+					e.AssumeEQ(s2, rc.Pos0.AddK(2), length)
+					return true
+				})
+				beforeWhite := possible(func(s2 *absint.State) bool {
+					if !twoDashes(s2) {
+						return false
+					}
+					e.AssumeLE(s2, rc.Pos0.AddK(3), length)
+					m := e.MaskOf(s2, third)
+					any := false
+					var mw absint.Mask
+					for b := 0; b < 256; b++ {
+						if m.Has(b) && white.Has(b) {
+							mw[b>>6] |= 1 << (uint(b) & 63)
+							any = true
+						}
+					}
+					if !any {
+						return false
+					}
+					e.SetMask(s2, third, mw)
+					return true
+				})
+				where := retLabel(ret)
+				e.Check(st, fr, ret.Pos(), "R-tail", "`--` at the end of the input starts a comment at "+where, isComment || !atEOF, "the dash lexer can emit something other than a comment for `--` at the very end of the input: the trailing-comment style `… --` no longer truncates the statement in that mode")
+				e.Check(st, fr, ret.Pos(), "R-tail", "`--` followed by white space starts a comment at "+where, isComment || !beforeWhite, "the dash lexer can emit something other than a comment for `-- `: the trailing-comment style no longer truncates the statement")
+			}
 		})
 		residuals := loadResiduals(c, r)
-		lex := map[string]bool{"O-hit": true, "O-str": true, "A-span": true, "A-clip": true, "P-step": true}
+		lex := map[string]bool{"O-hit": true, "O-str": true, "A-span": true, "A-clip": true, "P-step": true, "R-tail": true}
 		n := 0
 		for _, o := range mergeObs(sr.runs) {
 			if !lex[o.Rule] {
